@@ -3,6 +3,7 @@ package props
 import (
 	"bytes"
 	"fmt"
+	"path"
 	"regexp"
 	"sort"
 	"strings"
@@ -103,7 +104,7 @@ func checkC09Format(c *BuildCase, f string, d *Decoded, vs *vlist) {
 	want := map[string][]byte{}
 	for slot, inner := range slotsOf(f) {
 		if rel, ok := c.Scripts[slot]; ok {
-			want[inner] = ti.byRel[rel].Content()
+			want[inner] = scriptBytes(ti, rel)
 		}
 	}
 	for inner, w := range want {
@@ -158,6 +159,19 @@ func checkC09Format(c *BuildCase, f string, d *Decoded, vs *vlist) {
 	}
 }
 
+// scriptBytes returns the bytes a reader of the configured script path sees: the file's own, or, when the path is a
+// symbolic link (scripts kept in a shared directory and linked per package are common), those of the file it points to.
+func scriptBytes(ti *treeIndex, rel string) []byte {
+	n := ti.byRel[rel]
+	for hops := 0; n != nil && n.Kind == "symlink" && hops < 4; hops++ {
+		n = ti.byRel[path.Clean(pathDir(n.Rel)+"/"+n.Target)]
+	}
+	if n == nil {
+		panic("script path " + rel + " does not resolve inside the generated tree")
+	}
+	return n.Content()
+}
+
 func clip(b []byte) []byte {
 	if len(b) > 40 {
 		return b[:40]
@@ -193,7 +207,11 @@ func scriptBaseCase() *BuildCase {
 }
 
 func genScriptBytes(t *rapid.T, label string) string {
-	switch rapid.IntRange(0, 8).Draw(t, label+".class") {
+	switch rapid.IntRange(0, 9).Draw(t, label+".class") {
+	case 9:
+		// one very long line (an embedded base64 payload): longer than the 64 KiB default of line-oriented readers
+		n := rapid.SampledFrom([]int{4095, 4096, 65535, 65536, 65537, 70000, 150000}).Draw(t, label+".linelen")
+		return "#!/bin/sh\nPAYLOAD=" + strings.Repeat("Q", n) + "\necho " + label + " done\n"
 	case 8:
 		// every byte value including NUL (compared in every format but rpm, whose scriptlets are C strings)
 		return string(rapid.SliceOfN(rapid.Byte(), 1, 120).Draw(t, label+".bin0")) + "\x00tail"
@@ -224,7 +242,7 @@ func nontrivialC09(c *BuildCase) bool {
 	distinct := map[string]bool{}
 	ti := indexTree(c.Tree)
 	for _, rel := range c.Scripts {
-		distinct[string(ti.byRel[rel].Content())] = true
+		distinct[string(scriptBytes(ti, rel))] = true
 	}
 	return len(distinct) >= 2 || len(c.Scripts) < len(allScriptSlots)
 }
@@ -272,6 +290,15 @@ func TestC09(t *testing.T) {
 		for _, s := range allScriptSlots {
 			if rapid.IntRange(0, 2).Draw(rt, "set."+s) != 0 {
 				addScript(c, s, genScriptBytes(rt, s), genMTime(rt, "mt."+s))
+			}
+		}
+		// a script path may be a symbolic link to the real file (relative target, another directory)
+		for _, slot := range sortedKeys(c.Scripts) {
+			if rapid.IntRange(0, 3).Draw(rt, "linked."+slot) == 0 {
+				real := c.Scripts[slot]
+				link := "scripts/links/" + strings.ReplaceAll(slot, ".", "_") + ".lnk"
+				c.Tree = append(c.Tree, FNode{Rel: link, Kind: "symlink", Target: "../" + strings.TrimPrefix(real, "scripts/")})
+				c.Scripts[slot] = link
 			}
 		}
 		// two slots may be wired to the very same file
